@@ -121,6 +121,7 @@ func (p *StreamPool) Dump() {
 }
 
 func (p *StreamPool) remove(conn *connection) {
+	verifYield("remove.lock", p)
 	p.mu.Lock()
 	if _, ok := p.conns[conn.key]; ok {
 		delete(p.conns, conn.key)
@@ -141,11 +142,13 @@ func NewStreamPool(factory StreamFactory) *StreamPool {
 }
 
 func (p *StreamPool) connections() []*connection {
+	verifYield("conns.rlock", p)
 	p.mu.RLock()
 	conns := make([]*connection, 0, len(p.conns))
 	for _, conn := range p.conns {
 		conns = append(conns, conn)
 	}
+	verifOrder(p, conns)
 	p.mu.RUnlock()
 	return conns
 }
@@ -183,6 +186,7 @@ func (p *StreamPool) getHalf(k key) (*connection, *halfconnection, *halfconnecti
 // does not already exist, returns nil.  This allows us to check for a
 // connection without actually creating one if it doesn't already exist.
 func (p *StreamPool) getConnection(k key, end bool, ts time.Time, tcp *layers.TCP, ac AssemblerContext) (*connection, *halfconnection, *halfconnection) {
+	verifYield("get.rlock", p)
 	p.mu.RLock()
 	conn, half, rev := p.getHalf(k)
 	p.mu.RUnlock()
@@ -193,6 +197,7 @@ func (p *StreamPool) getConnection(k key, end bool, ts time.Time, tcp *layers.TC
 	if s == nil {
 		return nil, nil, nil
 	}
+	verifYield("get.lock", p)
 	p.mu.Lock()
 	defer p.mu.Unlock()
 	conn, half, rev = p.newConnection(k, s, ts)
